@@ -7,6 +7,7 @@ import (
 	"github.com/shutter-network/rolling-shutter/rolling-shutter/app"
 
 	"github.com/shutter-network/rolling-shutter/rolling-shutter/medley/verifhook"
+	"github.com/shutter-network/rolling-shutter/rolling-shutter/shmsg"
 
 	"verif/sim/canon"
 	"verif/sim/simfs"
@@ -113,6 +114,31 @@ func runC09(r *simkit.Run) {
 	curBlock = pending
 	w.execBlock(pending)
 	c09probe(r, w.chain.Replicas[0].App)
+	// a long history: one keyper has sent well over a thousand transactions, then some of them
+	// are replayed byte for byte (per-sender bookkeeping that grows with the history must stay
+	// identical on all replicas)
+	if c.Chance(4, "long-history") {
+		k := w.keys[0]
+		var sent []*txInfo
+		for len(sent) < 1100 {
+			var blk []*txInfo
+			for i := 0; i < 55; i++ {
+				ti := w.mk(k, shmsg.NewBlockSeen(uint64(len(sent))), "blockseen", "long history")
+				blk = append(blk, ti)
+				sent = append(sent, ti)
+			}
+			curBlock = blk
+			w.execBlock(blk)
+		}
+		var replays []*txInfo
+		for i := 0; i < 40; i++ {
+			cp := *simkit.Pick(c, sent, "long-history-replay")
+			replays = append(replays, &cp)
+		}
+		curBlock = replays
+		w.execBlock(replays)
+		r.Probe("long-history-runs")
+	}
 	r.Sample["blocks"] = w.chain.Height
 	r.Sample["txs"] = len(w.txs)
 }
